@@ -141,6 +141,26 @@ def check_pair(ctx, P, t, a, base=None):
             ctx.check('parse(P+enc(M)) == parse(P)+[M]', one == base + [M] and npend == len(base) + 1 and p.pending() == 0,
                       f'{how}:' + t, case,
                       lambda: {'got': [m.hex() for m in one], 'want': [m.hex() for m in base] + [M.hex()], 'pending()': npend})
+        # the call that delivered the prefix ended badly - its source raised after the last byte of P, or an item
+        # that is no MIDI byte followed P - and M arrives in the next call: M is still recognised, and what
+        # P had completed is still delivered
+        for how in (('source-raises', 300, None, -1)[(len(P) + sum(P) + sum(enc)) % 4],):      # one of the four per pair, rotating
+            p = Parser()
+
+            def src():
+                yield from P
+                if how == 'source-raises':
+                    raise OSError('device read failed')
+                yield how
+            try:
+                p.feed(src() if how == 'source-raises' else list(src()))
+            except (OSError, ValueError, TypeError):
+                pass
+            p.feed(enc)
+            after = list(p)
+            ok = after == base + [M] if how == 'source-raises' else (after == base + [M] or after == base + mido.parse_all(enc))
+            ctx.check('parse(P+enc(M)) == parse(P)+[M]', ok and after[-1:] == [M], f'after-failed-feed:{how}:' + t, case,
+                      lambda: {'got': [m.hex() for m in after], 'want': [m.hex() for m in base] + [M.hex()]})
         # the prefix and the message arrive in separate feed() calls (bytes and list chunks)
         for cont in (bytes, list):
             import copy
